@@ -59,8 +59,19 @@ def generate(r):
         lines.append("export let none_%s = nil;" % ident[m])
         if fibers_in_modules and r.random() < 0.5:
             # (a synchronous channel parks the module's fiber in the blocked state, a buffered one puts it to sleep)
-            lines.append("let mc_%s = chan(%s); fn mw_%s(c) { c <- %d; } launch mw_%s(mc_%s); print('%s fiber', <- mc_%s);" % (
-                ident[m], r.choice(["", "1"]), ident[m], i + 70, ident[m], ident[m], m, ident[m]))
+            form = r.choice(["one", "one", "race", "closer"])
+            if form == "one":
+                lines.append("let mc_%s = chan(%s); fn mw_%s(c) { c <- %d; } launch mw_%s(mc_%s); print('%s fiber', <- mc_%s);" % (
+                    ident[m], r.choice(["", "1"]), ident[m], i + 70, ident[m], ident[m], m, ident[m]))
+            elif form == "race":
+                # the first answer wins: the second sender is still parked on the channel when the module body ends
+                lines.append("let mc_%s = chan(); fn mw_%s(c, v) { c <- v; } launch mw_%s(mc_%s, %d); launch mw_%s(mc_%s, -1); print('%s fiber', <- mc_%s);" % (
+                    ident[m], ident[m], ident[m], ident[m], i + 70, ident[m], ident[m], m, ident[m]))
+            else:
+                # a worker of the module is parked on a channel that the module closes as one of its last actions
+                lines.append("let mc_%s = chan(%s); fn mw_%s(c) { let v = <- c; while v != nil { v = <- c; } } launch mw_%s(mc_%s); "
+                             "mc_%s <- 1; print('%s fiber', %d); mc_%s.close();" % (
+                                 ident[m], r.choice(["", "1"]), ident[m], ident[m], ident[m], ident[m], m, i + 70, ident[m]))
         for d in deps[m]:
             call = ("b_%s()" % ident[d]) if sym[d] else ("I_%s.bump_%s()" % (ident[d], ident[d]))
             lines.append("print('%s sees', %s);" % (m, call))
